@@ -132,6 +132,11 @@ def ofTreeL : List Tree → List NDict
   | t :: ts => ofTree t :: ofTreeL ts
 end
 
+/-- `nested_dict_to_tree(node_attrs)`: an empty dictionary (`none`) is refused with `ValueError` -/
+def nestedToTree : Option NDict → Except Err Tree
+  | none => .error .value
+  | some d => d.toTree
+
 end NDict
 
 namespace Heap
